@@ -277,6 +277,17 @@ func driveC15(c *driverCtx) error {
 		}
 		emitSchemaGen(c, "C15|static|"+t.Name(), t, res)
 	}
+	// TLC-enumerated types (role B)
+	if c.cases != "" {
+		ts, err := tlcTypes(c.cases)
+		if err != nil {
+			return err
+		}
+		for _, t := range ts {
+			emitSchemaGen(c, "C15|tlc", t, schemagenOnce(t))
+		}
+		c.extra["tlc_types"] = len(ts)
+	}
 	feat := featuresFromKnown("C15")
 	feat.PtrPtr, feat.PtrNullWrapper = true, true
 	for i := 0; i < c.pick(250, 5000); i++ {
